@@ -138,3 +138,71 @@ def _raw_targets(body, bb, exclude):
     out = [tg for v, tg in t[2] if v != exclude]
     out.append(t[3])
     return out
+
+
+def excluded_variants(prog, body, adt_id, block):
+    """Variants V of enum adt_id such that reaching `block` implies the tested operand != V. Besides direct
+    dominance by a `!= V` edge this follows booleans that were materialised from the tests
+    (`let may = op == A || op == B; if may .. else ..`)."""
+    from .cfg import def_sites
+    cfg = cfg_of(body)
+    tests = variant_tests(prog, body, adt_id)
+
+    def direct(bb):
+        return {t['variant'] for t in tests if t['ne_edges'] and cfg.edges_dominate(t['ne_edges'], bb)}
+    # result local of each eq/ne call test -> (variant, True if the call is `eq`)
+    test_result = {}
+    for t in tests:
+        if t.get('operand') is None:
+            continue
+        tb = body.blocks[t['bb']].term
+        if tb[0] == 'call':
+            from .facts import callee_decl
+            test_result[tb[4].local] = (t['variant'], callee_decl(tb)[1].endswith('::eq'))
+    out = set(direct(block))
+    for bj, bl in enumerate(body.blocks):
+        tt = bl.term
+        if bl.cleanup or tt[0] != 'switch' or tt[1][0] not in ('c', 'm') or tt[1][1].proj:
+            continue
+        m = tt[1][1].local
+        if body.locals[m].s != 'bool':
+            continue
+        m = root_local(body, m)[0]      # through `_t = copy _m` temporaries down to the (multi-def) bool
+        zero_t = {tg for v, tg in tt[2] if v == 0}
+        nonzero_t = {tt[3]} | {tg for v, tg in tt[2] if v != 0}
+        if zero_t & nonzero_t:
+            continue
+        if zero_t and cfg.edges_dominate([(bj, x) for x in zero_t], block):
+            tau = False
+        elif cfg.edges_dominate([(bj, x) for x in nonzero_t], block):
+            tau = True
+        else:
+            continue
+        defs = [d for d in def_sites(body).get(m, []) if not body.blocks[d[0]].cleanup]
+        if not defs:
+            continue
+        acc = None
+        for dbb, si, rv in defs:
+            facts = set(direct(dbb))
+            if si != 'term' and rv[0] == 'use' and rv[1][0] == 'k' and rv[1][1].i is not None:
+                if bool(rv[1][1].i) != tau:
+                    continue          # this definition cannot have produced tau
+            elif si != 'term' and rv[0] == 'use' and rv[1][0] in ('c', 'm') and not rv[1][1].proj:
+                src = root_local(body, rv[1][1].local)[0]
+                if src in test_result:
+                    v, is_eq = test_result[src]
+                    if is_eq != tau:
+                        facts.add(v)
+            elif si == 'term':
+                # the bool is directly the result of an eq/ne test at this definition
+                from .facts import callee_decl
+                nm = callee_decl(rv)[1] or ''
+                if nm in ('std::cmp::PartialEq::eq', 'std::cmp::PartialEq::ne'):
+                    for t in tests:
+                        if t.get('operand') is not None and t['bb'] == dbb:
+                            if nm.endswith('::eq') != tau:
+                                facts.add(t['variant'])
+            acc = facts if acc is None else (acc & facts)
+        if acc:
+            out |= acc
+    return out
